@@ -3,7 +3,7 @@ import concurrent.futures as cf
 from common import *
 from kern_common import *
 
-TRI_KINDS = ['random', 'integer', 'graded', 'zerosub', 'repeated', 'wilkinson', 'zero', 'tiny', 'huge', 'nearzero']
+TRI_KINDS = ['random', 'integer', 'graded', 'zerosub', 'repeated', 'wilkinson', 'zero', 'tiny', 'huge', 'nearzero', 'e2underflow']
 HESS_KINDS = ['random', 'integer', 'graded', 'deflated', 'companion', 'jordan', 'rotation', 'zero', 'smallscale', 'bigscale', 'symmetric', 'tieblock', 'samereal']
 
 
@@ -26,6 +26,10 @@ def tri_case(rng, n, kind, eps):
         d = [v * 1e-290 for v in d]; sd = [v * 1e-290 for v in sd]
     elif kind == 'huge':
         d = [v * 1e150 for v in d]; sd = [v * 1e150 for v in sd]
+    elif kind == 'e2underflow':   # last sub-diagonal entry e with e*e == 0 in binary64 but not deflated (the last two diagonal entries are smaller still):
+        # the branch of the Wilkinson shift that avoids e^2 (found never executed by a coverage run of the harness inputs)
+        sd[n - 2] = rnd(rng) * 10.0 ** (-rng.range(163, 165))
+        d[n - 1] = rnd(rng) * 10.0 ** (-rng.range(300, 305)); d[n - 2] = rnd(rng) * 10.0 ** (-rng.range(300, 305))
     elif kind == 'nearzero':      # sub-diagonals at the deflation threshold eps * sqrt(|d_i| + |d_i+1|) +- a few ulp
         sd = [ulp_step(eps * math.sqrt(abs(d[i]) + abs(d[i + 1])), rng.range(-3, 3)) * (1 if rng.below(2) else -1) if rng.below(2) else sd[i] for i in range(n - 1)]
     return d, sd
